@@ -83,6 +83,39 @@ var rsaPreds = map[string]rsaPred{
 
 const fermatLint = "e_rsa_fermat_factorization"
 
+var (
+	stageMu    sync.Mutex
+	stageCache = map[string]map[string]model.Stage{}
+)
+
+// corpusStages: lifecycle stage of every certificate lint on a corpus certificate that is not self-signed and
+// carries an RSA key (nil otherwise).
+func corpusStages(name string) map[string]model.Stage {
+	stageMu.Lock()
+	defer stageMu.Unlock()
+	if m, ok := stageCache[name]; ok {
+		return m
+	}
+	var m map[string]model.Stage
+	for _, o := range gen.LoadCorpus().Certs {
+		if o.Name != name {
+			continue
+		}
+		pc, ok := gen.ParseCert(o.DER)
+		if _, isRSA := pc.PublicKey.(*rsa.PublicKey); !ok || !isRSA || pc.SelfSigned {
+			break
+		}
+		r := engine.Execute(engine.Case{Kind: gen.Cert, DER: o.DER}, true)
+		m = map[string]model.Stage{}
+		for n, e := range r.Exp {
+			m[n] = e.Stage
+		}
+		break
+	}
+	stageCache[name] = m
+	return m
+}
+
 var factorRe = regexp.MustCompile(`p: (\d+); q: (\d+)`)
 
 func judgeC16(rec *stats.Rec, c c16Case) (string, string) {
@@ -117,6 +150,22 @@ func judgeC16Inner(rec *stats.Rec, c c16Case) (string, string) {
 		return "", ""
 	}
 	v := engine.Verdicts(run.RS)
+	// Which RSA keys a key-quality lint looks at must not depend on the value of the key: if the lint's
+	// body ran on the corpus certificate the key was written into (whose own key is RSA), it runs on the
+	// re-keyed certificate too - "for every certificate with an RSA key on which they apply".
+	if bs := corpusStages(c.Base); bs != nil && cfg == nil {
+		lnames := make([]string, 0, len(rsaPreds)+1)
+		for nme := range rsaPreds {
+			lnames = append(lnames, nme)
+		}
+		lnames = append(lnames, fermatLint)
+		sort.Strings(lnames)
+		for _, nme := range lnames {
+			if ex, ok := run.Exp[nme]; ok && bs[nme] == model.StExecuted && ex.Stage == model.StNotApplicable {
+				return "applicability|" + nme, fmt.Sprintf("%s runs on %s with its own RSA key but declares itself not applicable once the key is N (%d bits) e=%d", nme, c.Base, n.BitLen(), e)
+			}
+		}
+	}
 	names := make([]string, 0, len(rsaPreds))
 	for nme := range rsaPreds {
 		names = append(names, nme)
